@@ -81,8 +81,113 @@ def cases(ctx: Ctx):
     return out
 
 
+def check_e2e(ctx: Ctx, res: Result):
+    """End to end through the public API (the planners and the batcher sit between the application state and the
+    scheduler): real Snapshot.take + restore of small states - zero-length tensors alone or next to others, objects,
+    tensors around the slab threshold - under tight budgets / io concurrency, batching on and off.  Every payload location
+    the committed manifest refers to was written exactly once, nothing else was written, and restore reads each needed
+    location and reproduces the state."""
+    import os
+    import shutil
+    import torch
+    from torchsnapshot import Snapshot, StateDict
+    from torchsnapshot.manifest import ChunkedTensorEntry, ObjectEntry, ShardedTensorEntry, TensorEntry
+    from torchsnapshot.storage_plugins.fs import FSStoragePlugin
+    from lib.world import safe_gc
+    rng = ctx.rng
+    writes, reads = [], []
+    o_write, o_read = FSStoragePlugin.write, FSStoragePlugin.read
+
+    async def write(self, write_io):
+        await o_write(self, write_io)
+        writes.append(write_io.path)
+
+    async def read(self, read_io):
+        await o_read(self, read_io)
+        reads.append(read_io.path)
+    KN = ["TORCHSNAPSHOT_DISABLE_BATCHING", "TORCHSNAPSHOT_PER_RANK_MEMORY_BUDGET_BYTES", "TORCHSNAPSHOT_SLAB_SIZE_THRESHOLD_BYTES_OVERRIDE",
+          "TORCHSNAPSHOT_MAX_PER_RANK_IO_CONCURRENCY_OVERRIDE", "TORCHSNAPSHOT_MAX_CHUNK_SIZE_BYTES_OVERRIDE"]
+    saved = {k: os.environ.get(k) for k in KN}
+    FSStoragePlugin.write, FSStoragePlugin.read = write, read
+    try:
+        for i in range(ctx.n(16, 100)):
+            shape_pool = [[0], [0, 3], [2], [5], [3, 2], [16], [1]]
+            n = rng.randint(1, 6)
+            state = {}
+            for j in range(n):
+                k = rng.random()
+                if k < 0.75:
+                    state[f"t{j}"] = torch.arange(int(torch.tensor(sh).prod()) if (sh := rng.choice(shape_pool)) else 0, dtype=rng.choice([torch.float32, torch.int8, torch.int64])).reshape(sh)
+                elif k < 0.9:
+                    state[f"o{j}"] = (j, "x" * rng.randint(0, 5))
+                else:
+                    state[f"p{j}"] = j
+            if rng.random() < 0.3:
+                state = {"only_empty": torch.zeros(0, 4)} if rng.random() < 0.5 else {"e": torch.zeros(0), "x": torch.ones(3)}
+            knobs = {"TORCHSNAPSHOT_DISABLE_BATCHING": "1" if rng.random() < 0.4 else None,
+                     "TORCHSNAPSHOT_PER_RANK_MEMORY_BUDGET_BYTES": str(rng.choice([1, 16, 64, 10 ** 8])),
+                     "TORCHSNAPSHOT_SLAB_SIZE_THRESHOLD_BYTES_OVERRIDE": rng.choice([None, "8", "40"]),
+                     "TORCHSNAPSHOT_MAX_PER_RANK_IO_CONCURRENCY_OVERRIDE": rng.choice([None, "1", "2"]),
+                     "TORCHSNAPSHOT_MAX_CHUNK_SIZE_BYTES_OVERRIDE": rng.choice([None, "16"])}
+            for k, v in knobs.items():
+                if v is None:
+                    os.environ.pop(k, None)
+                else:
+                    os.environ[k] = v
+            root = ctx.scratch("c11e")
+            desc = {k: (list(v.shape) if isinstance(v, torch.Tensor) else type(v).__name__) for k, v in state.items()}
+            replay = {"e2e": True, "state": desc, "knobs": knobs}
+            res.case({"e2e": True, "state": desc, "knobs": knobs}, nontrivial=len(state) >= 2)
+            res.count("e2e.batching", "off" if knobs["TORCHSNAPSHOT_DISABLE_BATCHING"] else "on")
+            try:
+                del writes[:], reads[:]
+                with safe_gc():
+                    try:
+                        Snapshot.take(os.path.join(root, "s"), {"m": StateDict(dict(state))})
+                    except Exception as e:  # noqa
+                        res.failures.append(Failure(f"C11:e2e:take-raised:{type(e).__name__}", f"take of {desc} raised {type(e).__name__}: {str(e)[:120]} [{knobs}]", replay))
+                        continue
+                    man = Snapshot(os.path.join(root, "s")).get_manifest()
+                    locs = set()
+                    for e in man.values():
+                        if isinstance(e, ChunkedTensorEntry):
+                            locs |= {c.tensor.location for c in e.chunks}
+                        elif isinstance(e, ShardedTensorEntry):
+                            locs |= {sh_.tensor.location for sh_ in e.shards}
+                        elif isinstance(e, (TensorEntry, ObjectEntry)):
+                            locs.add(e.location)
+                    payload_writes = [w for w in writes if w != ".snapshot_metadata"]
+                    never = sorted(l for l in locs if payload_writes.count(l) == 0)
+                    twice = sorted(l for l in locs if payload_writes.count(l) > 1)
+                    stray = sorted(set(payload_writes) - locs)
+                    if never or twice or stray:
+                        res.failures.append(Failure("C11:e2e:locations-not-written-exactly-once",
+                                                    f"take of {desc}: locations referenced by the manifest never written {never}, written more than once {twice}, written but not referenced {stray} [{knobs}]", replay))
+                    tgt = {"m": StateDict({k: (torch.full_like(v, 7) if isinstance(v, torch.Tensor) else None) for k, v in state.items()})}
+                    try:
+                        Snapshot(os.path.join(root, "s")).restore(tgt)
+                        for k, v in state.items():
+                            got = tgt["m"][k]
+                            ok = torch.equal(got, v) and got.dtype == v.dtype if isinstance(v, torch.Tensor) else got == v
+                            if not ok:
+                                res.failures.append(Failure("C11:e2e:restore-differs", f"restore of {desc}: {k} differs [{knobs}]", replay))
+                                break
+                    except Exception as e:  # noqa
+                        res.failures.append(Failure(f"C11:e2e:restore-raised:{type(e).__name__}", f"restore of a committed snapshot of {desc} raised {type(e).__name__}: {str(e)[:120]} [{knobs}]", replay))
+            finally:
+                shutil.rmtree(root, ignore_errors=True)
+    finally:
+        FSStoragePlugin.write, FSStoragePlugin.read = o_write, o_read
+        for k, v in saved.items():
+            if v is None:
+                os.environ.pop(k, None)
+            else:
+                os.environ[k] = v
+
+
 def correspond(ctx: Ctx) -> Result:
     res = Result(rule=RULE)
+    check_e2e(ctx, res)
     wcoq, rcoq, wmeta, rmeta = [], [], [], []
     for reqs, B, K, picks, f in cases(ctx):
         for kind in ("write", "read"):
@@ -113,6 +218,10 @@ def correspond(ctx: Ctx) -> Result:
 
 
 def replay(ctx: Ctx, data):
+    if data.get("e2e"):
+        r = Result()
+        check_e2e(Ctx(ctx.prop, ctx.tier, ctx.seed), r)      # the sweep is seeded: it reproduces the recorded case
+        return r.failures[0] if r.failures else None
     r = Result()
     reqs = [tuple(x) for x in data["reqs"]]
     run = (sc.run_write if data["pipeline"] == "write" else sc.run_read)(reqs, data["B"], data["K"], data["picks"], fail_at=data.get("fail_at"))
